@@ -1,11 +1,401 @@
-//! C18 — not built yet.
-use crate::ev::Ctx;
-pub fn run(_ctx: &Ctx) -> i32 {
-    println!("INCONCLUSIVE property=C18 check not built yet");
+//! C18 — nesting limits are clean, and the same for slice and reader input.
+//!
+//! In-process (large thread stacks, so the verdict itself never depends on the
+//! harness stack): for each source format, nesting shape and depth in a window
+//! around the format's limit and far beyond, verdict(slice) == verdict(reader)
+//! for explicit and for detected source selection, all shapes share one limit,
+//! verdicts are monotone in depth, MessagePack accepts exactly 1023 collections
+//! around a scalar. The MessagePack size calculator (hook) is compared with the
+//! harness's decoder. The real debug and release binaries on their default
+//! stacks must survive every depth with the exit status the library predicts.
+
+use serde_json::{json, Value};
+
+use crate::ev::{self, Acc, Ctx, Finish, Violation};
+use crate::fmts::{self, Fmt, ALL};
+use crate::model::preview;
+use crate::mon::Sched;
+use crate::procmon::{self, Run, Scratch, Status, StdinKind, StdoutKind};
+use crate::rng::Rng;
+use crate::run::{run_mode, Mode};
+
+#[derive(Clone, Copy, Debug, PartialEq, Eq, Hash)]
+pub enum Shape {
+    Arrays,
+    Maps,
+    Alternating,
+    Random(u64),
+    /// MessagePack only: each level nests in map-key position.
+    KeyPosition,
+}
+
+impl Shape {
+    fn name(self) -> String {
+        match self {
+            Shape::Arrays => "arrays".into(),
+            Shape::Maps => "maps".into(),
+            Shape::Alternating => "alternating".into(),
+            Shape::Random(s) => format!("random:{s}"),
+            Shape::KeyPosition => "key_position".into(),
+        }
+    }
+    fn parse(s: &str) -> Option<Shape> {
+        match s {
+            "arrays" => Some(Shape::Arrays),
+            "maps" => Some(Shape::Maps),
+            "alternating" => Some(Shape::Alternating),
+            "key_position" => Some(Shape::KeyPosition),
+            _ => s.strip_prefix("random:").and_then(|x| x.parse().ok()).map(Shape::Random),
+        }
+    }
+    /// true = array at level i
+    fn is_array(self, i: usize, rng: &mut Rng) -> bool {
+        match self {
+            Shape::Arrays => true,
+            Shape::Maps | Shape::KeyPosition => false,
+            Shape::Alternating => i % 2 == 0,
+            Shape::Random(_) => rng.chance(1, 2),
+        }
+    }
+}
+
+pub const LIMITS: [(Fmt, usize); 4] = [(Fmt::Msgpack, 1024), (Fmt::Json, 128), (Fmt::Yaml, 128), (Fmt::Toml, 80)];
+
+/// A document of format `f` with `d` collections nested around a scalar.
+pub fn nested(f: Fmt, shape: Shape, d: usize) -> Vec<u8> {
+    let mut rng = Rng::new(match shape {
+        Shape::Random(s) => s,
+        _ => 0,
+    });
+    let kinds: Vec<bool> = (0..d).map(|i| shape.is_array(i, &mut rng)).collect();
+    match f {
+        Fmt::Json | Fmt::Yaml => {
+            // flow syntax is shared by JSON and YAML
+            let mut s = String::with_capacity(d * 7 + 4);
+            for a in &kinds {
+                s.push_str(if *a { "[" } else { "{\"a\":" });
+            }
+            s.push('1');
+            for a in kinds.iter().rev() {
+                s.push(if *a { ']' } else { '}' });
+            }
+            s.push('\n');
+            s.into_bytes()
+        }
+        Fmt::Toml => {
+            // root table plus d-1 nested values (the root counts as the first collection)
+            let mut s = String::from("a = ");
+            for a in kinds.iter().skip(1) {
+                s.push_str(if *a { "[" } else { "{a = " });
+            }
+            s.push('1');
+            for a in kinds.iter().skip(1).rev() {
+                s.push(if *a { ']' } else { '}' });
+            }
+            s.push('\n');
+            if d == 0 {
+                return b"".to_vec();
+            }
+            s.into_bytes()
+        }
+        Fmt::Msgpack => {
+            let mut b = Vec::with_capacity(d * 3 + 1);
+            if shape == Shape::KeyPosition {
+                // f(0) = 01 ; f(d) = 81 f(d-1) 01
+                for _ in 0..d {
+                    b.push(0x81);
+                }
+                b.push(0x01);
+                for _ in 0..d {
+                    b.push(0x01);
+                }
+                return b;
+            }
+            for a in &kinds {
+                if *a {
+                    b.push(0x91);
+                } else {
+                    b.extend_from_slice(&[0x81, 0xa1, b'a']);
+                }
+            }
+            b.push(0x01);
+            b
+        }
+    }
+}
+
+/// YAML block-style nesting for the window around the limit (indentation grows,
+/// so only for small depths).
+pub fn nested_yaml_block(shape: Shape, d: usize) -> Vec<u8> {
+    let mut rng = Rng::new(match shape {
+        Shape::Random(s) => s,
+        _ => 0,
+    });
+    let mut s = String::new();
+    let mut indent = 0;
+    let mut at_line_start = true;
+    for i in 0..d {
+        let a = shape.is_array(i, &mut rng);
+        if a {
+            if at_line_start {
+                s.push_str(&" ".repeat(indent));
+            }
+            s.push_str("- ");
+            indent += 2;
+            at_line_start = false;
+        } else {
+            if at_line_start {
+                s.push_str(&" ".repeat(indent));
+            }
+            s.push_str("a:\n");
+            indent += 1;
+            at_line_start = true;
+        }
+    }
+    if at_line_start {
+        s.push_str(&" ".repeat(indent));
+    }
+    s.push_str("1\n");
+    s.into_bytes()
+}
+
+pub fn depths(limit: usize, f: Fmt, thorough: bool) -> Vec<usize> {
+    let mut v: Vec<usize> = vec![1, 2, 10];
+    for d in limit.saturating_sub(6)..=limit + 6 {
+        v.push(d);
+    }
+    v.extend([1000, 1023, 1024, 1025, 10_000]);
+    if f != Fmt::Yaml {
+        v.push(100_000);
+        if thorough && f != Fmt::Toml {
+            v.push(1_000_000);
+        }
+    } else if thorough {
+        v.push(30_000);
+    }
+    v.sort();
+    v.dedup();
+    v
+}
+
+fn verdict_class(input: &[u8], mode: &Mode, from: Option<Fmt>, to: Fmt) -> String {
+    let o = run_mode(input, mode, from, to);
+    o.verdict.class().to_string()
+}
+
+/// In-process part for one (format, shape, target): returns the largest accepted depth.
+pub fn inproc(f: Fmt, shape: Shape, to: Fmt, thorough: bool, acc: &mut Acc) -> Option<usize> {
+    let limit = LIMITS.iter().find(|(x, _)| *x == f).unwrap().1;
+    let mut last_ok: Option<usize> = None;
+    let mut first_err: Option<usize> = None;
+    for d in depths(limit, f, thorough) {
+        let mut inputs = vec![(nested(f, shape, d), "flow")];
+        if f == Fmt::Yaml && d <= 300 && shape != Shape::KeyPosition {
+            inputs.push((nested_yaml_block(shape, d), "block"));
+        }
+        for (input, style) in inputs {
+            if input.is_empty() {
+                continue;
+            }
+            acc.evals += 1;
+            acc.count(&format!("inproc_{}", f.name()));
+            let case = || json!({"part": "inproc", "format": f.name(), "shape": shape.name(), "depth": d, "to": to.name(), "style": style});
+            let mut classes: Vec<(String, String)> = vec![];
+            for from in [Some(f), None] {
+                let s = verdict_class(&input, &Mode::Slice, from, to);
+                let r1 = verdict_class(&input, &Mode::Reader(Sched::All), from, to);
+                let r2 = verdict_class(&input, &Mode::Reader(Sched::Fixed(7)), from, to);
+                if s == "panic" || r1 == "panic" || r2 == "panic" {
+                    acc.violation(Violation { sig: format!("{} depth panic", f.name()), case: case(), observed: format!("from={}: slice {s}, reader {r1}/{r2}", fmts::from_name(from)), expected: "Ok or Err".into() });
+                    return None;
+                }
+                if s != r1 || s != r2 {
+                    acc.violation(Violation { sig: format!("{} {} from={}: slice and reader disagree at a depth", f.name(), shape.name().split(':').next().unwrap(), fmts::from_name(from)), case: case(), observed: format!("depth {d}: slice {s}, reader(all) {r1}, reader(fixed 7) {r2}"), expected: "the same verdict from slice and reader".into() });
+                    return None;
+                }
+                classes.push((fmts::from_name(from).to_string(), s));
+            }
+            // monotonicity and the limit are judged on the explicit runs
+            let explicit_ok = classes[0].1 == "ok";
+            if explicit_ok {
+                if let Some(e) = first_err {
+                    if d > e {
+                        acc.violation(Violation { sig: format!("{} verdict not monotone in depth", f.name()), case: case(), observed: format!("depth {e} rejected but deeper depth {d} accepted"), expected: "accepted up to a limit, rejected beyond".into() });
+                        return None;
+                    }
+                }
+                last_ok = Some(last_ok.map_or(d, |l| l.max(d)));
+            } else if first_err.map_or(true, |e| d < e) {
+                first_err = Some(d);
+                if let Some(l) = last_ok {
+                    if l > d {
+                        acc.violation(Violation { sig: format!("{} verdict not monotone in depth", f.name()), case: case(), observed: format!("depth {d} rejected but deeper depth {l} accepted"), expected: "accepted up to a limit, rejected beyond".into() });
+                        return None;
+                    }
+                }
+            }
+        }
+    }
+    acc.max(&format!("deepest_accepted_{}", f.name()), last_ok.unwrap_or(0) as u64);
+    last_ok
+}
+
+fn size_hook(acc: &mut Acc, seed: u64, n: usize) {
+    // the MessagePack size calculator vs the harness's decoder, on generated and truncated values
+    for i in 0..n {
+        let mut rng = Rng::derive(seed, 0xc18, i as u64);
+        let mut cl = crate::gen::Classes::default();
+        let mut feats = crate::spell::Feats::default();
+        let doc = crate::gen::gen_doc(&mut rng, &crate::gen::GenOpts::common(), &mut cl);
+        let mut b = crate::spell::spell(Fmt::Msgpack, &doc, &mut rng, &mut feats, false);
+        let tn = rng.below(4);
+        let tail = rng.bytes(tn);
+        let full_len = b.len();
+        b.extend(tail);
+        if rng.chance(1, 3) {
+            let cut = rng.below(full_len.max(1));
+            b.truncate(cut);
+        }
+        acc.evals += 1;
+        acc.count("size_hook_cases");
+        let limit = xt::verif::msgpack_depth_limit();
+        let got = crate::run::guarded_any(|| xt::verif::msgpack_value_size(&b, limit));
+        let want = crate::read::msgpack::first_value_size(&b);
+        let ok = match (&got, &want) {
+            (Err(_), _) => false,
+            (Ok(Ok(n)), Ok(m)) => n == m,
+            (Ok(Ok(0)), Err(_)) => b.is_empty(),
+            (Ok(Err(_)), Err(_)) => true,
+            (Ok(Err(e)), Ok(_)) => e.contains("depth limit") && doc.depth() >= limit,
+            (Ok(Ok(_)), Err(_)) => false,
+        };
+        if !ok {
+            acc.violation(Violation { sig: "MessagePack size calculator disagrees with the independent decoder".into(), case: json!({"part": "size", "input_hex": crate::model::hex(&b)}), observed: format!("size calculator: {:?}; independent decoder: {:?}", got, want), expected: "the same size, or both reject".into() });
+        }
+    }
+}
+
+fn binaries(f: Fmt, shape: Shape, to: Fmt, d: usize, expect_ok: bool, acc: &mut Acc) {
+    let input = nested(f, shape, d);
+    let sc = Scratch::new();
+    let name = format!("deep.{}", f.name());
+    sc.file(&name, &input);
+    for (bin, bname) in [(procmon::release_bin(), "release"), (procmon::debug_bin(), "debug")] {
+        for via_stdin in [false, true] {
+            acc.evals += 1;
+            acc.count(&format!("binary_runs_{bname}"));
+            let argv: Vec<String> = if via_stdin { vec!["-f".into(), f.name().into(), "-t".into(), to.name().into()] } else { vec!["-t".into(), to.name().into(), name.clone()] };
+            let out = procmon::run(Run { bin: &bin, argv, cwd: sc.path(), stdin: if via_stdin { StdinKind::Bytes(input.clone()) } else { StdinKind::Null }, stdout: StdoutKind::File, wall_secs: 300, cpu_secs: 200 });
+            let case = || json!({"part": "binary", "binary": bname, "format": f.name(), "shape": shape.name(), "depth": d, "to": to.name(), "stdin": via_stdin});
+            match &out.status {
+                Status::Timeout | Status::SpawnError(_) => acc.inconclusive += 1,
+                Status::Signal(s) => acc.violation(Violation { sig: format!("{bname} binary died from a signal at a nesting depth ({})", f.name()), case: case(), observed: format!("killed by signal {s} at depth {d}; stderr [{}]", preview(&out.stderr, 200)), expected: "exit 0 or 1".into() }),
+                Status::Exit(c) => {
+                    let want = if expect_ok { 0 } else { 1 };
+                    if *c != want {
+                        acc.violation(Violation { sig: format!("{bname} binary exit status differs from the library verdict ({})", f.name()), case: case(), observed: format!("exit {c} at depth {d}; stderr [{}]", preview(&out.stderr, 200)), expected: format!("exit {want}") });
+                    } else {
+                        acc.count("binary_status_matches_library");
+                    }
+                }
+            }
+        }
+    }
+}
+
+pub fn run(ctx: &Ctx) -> i32 {
+    let thorough = ctx.thorough();
+    // work items: (format, shape, target)
+    let mut work = vec![];
+    for (f, _) in LIMITS {
+        let mut shapes = vec![Shape::Arrays, Shape::Maps, Shape::Alternating, Shape::Random(ctx.seed.wrapping_add(1)), Shape::Random(ctx.seed.wrapping_add(2))];
+        if f == Fmt::Msgpack {
+            shapes.push(Shape::KeyPosition);
+        }
+        for sh in shapes {
+            for to in ALL {
+                work.push((f, sh, to));
+            }
+        }
+    }
+    let results: std::sync::Mutex<Vec<((Fmt, Shape, Fmt), Option<usize>)>> = std::sync::Mutex::new(vec![]);
+    let mut acc = crate::par::run(work.len(), 1, |i, acc| {
+        let (f, sh, to) = work[i];
+        acc.distinct(&(f.name(), sh.name(), to.name()));
+        let l = inproc(f, sh, to, thorough, acc);
+        results.lock().unwrap().push((work[i], l));
+        // real binaries: around the limit and far beyond, for this (format, shape, target)
+        if let Some(l) = l {
+            let far = if f == Fmt::Yaml { 10_000 } else { 100_000 };
+            let pts: Vec<(usize, bool)> = if thorough { vec![(l.saturating_sub(1).max(1), true), (l, true), (l + 1, false), (l + 2, false), (1000, l >= 1000), (far, false)] } else { vec![(l, true), (l + 1, false), (far, false)] };
+            for (d, ok) in pts {
+                // TOML output needs a table root: skip targets that refuse the document for reasons other than depth
+                let probe = run_mode(&nested(f, sh, d), &Mode::Slice, Some(f), to);
+                if probe.verdict.is_ok() != ok {
+                    continue;
+                }
+                binaries(f, sh, to, d, ok, acc);
+            }
+        }
+    });
+    // all shapes and targets of one format share one limit; MessagePack's is 1023
+    let res = results.into_inner().unwrap();
+    let mut extra = serde_json::Map::new();
+    for (f, _) in LIMITS {
+        let ls: Vec<(String, usize)> = res.iter().filter(|((ff, _, _), l)| *ff == f && l.is_some()).map(|((_, sh, to), l)| (format!("{}/{}", sh.name(), to.name()), l.unwrap())).collect();
+        // targets that cannot take the document at all (e.g. TOML for an array root) report no limit
+        let accepted: Vec<usize> = ls.iter().map(|x| x.1).filter(|l| *l > 10).collect();
+        if let (Some(mn), Some(mx)) = (accepted.iter().min(), accepted.iter().max()) {
+            extra.insert(format!("deepest_accepted_{}", f.name()), json!({"min": mn, "max": mx}));
+            if mn != mx {
+                let lo = ls.iter().find(|x| x.1 == *mn).unwrap();
+                let hi = ls.iter().find(|x| x.1 == *mx).unwrap();
+                acc.violation(Violation { sig: format!("{}: nesting limit differs between shapes/targets", f.name()), case: json!({"part": "limits", "format": f.name()}), observed: format!("deepest accepted depth {} for {} but {} for {}", lo.1, lo.0, hi.1, hi.0), expected: "one limit for arrays, maps, mixtures (and key-position nesting)".into() });
+            }
+            if f == Fmt::Msgpack && *mx != 1023 {
+                acc.violation(Violation { sig: "MessagePack does not accept exactly 1023 collections around a scalar".into(), case: json!({"part": "limits", "format": "msgpack"}), observed: format!("deepest accepted: {mx}"), expected: "1023".into() });
+            }
+        }
+    }
+    size_hook(&mut acc, ctx.seed, ctx.size(20000, 400000));
+    let rule = format!("{} (source format, nesting shape, target) combinations: shapes arrays / maps / alternating / 2 random mixtures (+ key-position nesting for MessagePack) x 4 targets; depths: a +-6 window around each format's limit (MessagePack 1024, JSON 128, YAML 128, TOML 80; YAML also in block style), 1000..1025, 10^4, 10^5{} ; at every depth slice vs reader(all) vs reader(fixed 7), explicit and detected; the debug and release binaries (default stack, file and stdin) at the limit, one beyond and far beyond; MessagePack size calculator vs the harness decoder on generated, padded and truncated values; distinct non-trivial = distinct combinations", work.len(), if thorough { ", 10^6 (3*10^4 for YAML)" } else { "" });
+    ev::finish(
+        Finish { ctx, level: "exploration", rule, assumptions: vec!["YAML depths are capped (parsing is quadratic in depth)".into(), "targets that refuse the document for another reason (TOML with an array root) are left out of the limit comparison".into()], extra, exhaustive: false, min_distinct: 40, must_reach: vec![("binary_status_matches_library".into(), 100), ("binary_runs_debug".into(), 50), ("size_hook_cases".into(), 1000), ("inproc_msgpack".into(), 100)] },
+        acc,
+    )
+}
+
+pub fn inproc_main(_args: &[String]) -> i32 {
     2
 }
-pub fn replay(_case: &serde_json::Value) -> i32 {
-    println!("replay not built yet");
-    2
+
+pub fn replay(v: &Value) -> i32 {
+    let c = &v["case"];
+    let mut acc = Acc::default();
+    match c["part"].as_str() {
+        Some("inproc") | Some("binary") => {
+            let (Some(f), Some(shape), Some(to), Some(d)) = (c["format"].as_str().and_then(Fmt::parse), c["shape"].as_str().and_then(Shape::parse), c["to"].as_str().and_then(Fmt::parse), c["depth"].as_u64()) else { return 2 };
+            let l = inproc(f, shape, to, false, &mut acc);
+            println!("{} {} -> {}: deepest accepted depth {:?}", f.name(), shape.name(), to.name(), l);
+            if c["part"].as_str() == Some("binary") {
+                let ok = run_mode(&nested(f, shape, d as usize), &Mode::Slice, Some(f), to).verdict.is_ok();
+                binaries(f, shape, to, d as usize, ok, &mut acc);
+            }
+        }
+        Some("size") => {
+            println!("re-run the check to reproduce size-calculator cases");
+            return 2;
+        }
+        _ => {
+            println!("limit comparison: re-run the check");
+            return 2;
+        }
+    }
+    if acc.vio_count > 0 {
+        println!("VIOLATION property=C18 replay=<this file> (reproduced): {}", acc.violations[0].observed);
+        1
+    } else {
+        println!("not reproduced");
+        0
+    }
 }
-pub fn inproc_main(_args: &[String]) -> i32 { 2 }
